@@ -215,7 +215,7 @@ pub fn c15_module(p: &Placed, server: &mut Server, cwd: &std::path::Path) -> Mod
         }
         docs.into_iter().all(|(d, inner)| match d {
             None => true,
-            Some(d) => !(d.style == DocStyle::Block && d.lines.iter().any(|l| l.trim().is_empty())) && !(inner && d.lines.iter().any(|l| l.contains("export type"))),
+            Some(d) => !((d.style == DocStyle::Block || d.style == DocStyle::BlockThenAttrs) && d.lines.iter().any(|l| l.trim().is_empty())) && !(inner && d.lines.iter().any(|l| l.contains("export type"))),
         })
     });
     let force = FORCE_MERGE.load(std::sync::atomic::Ordering::Relaxed);
@@ -301,9 +301,10 @@ pub fn c15(ctx: &Ctx) -> ! {
                 let slash = lines.iter().any(|l| l.starts_with('/'));
                 let style = match d.style {
                     DocStyle::Line => DocStyle::Attr,
-                    DocStyle::Attr | DocStyle::Block if slash => DocStyle::Attr,
+                    DocStyle::Attr | DocStyle::Block | DocStyle::BlockThenAttrs if slash => DocStyle::Attr,
                     DocStyle::Attr => DocStyle::Line,
                     DocStyle::Block => DocStyle::Line,
+                    DocStyle::BlockThenAttrs => DocStyle::Block,
                 };
                 Some(Doc { lines, style })
             });
